@@ -29,7 +29,7 @@ Print Assumptions C04_no_data_race.
 Theorem C04_check_sound : forall C fenv,
   (forall f body, fenv f = Some body -> check_fn C f body = []) ->
   forall fn p ds t x ds', run fenv fn p ds t x ds' ->
-  forall decl entry les h H res, check C fn decl entry les p h ds = ([], res) -> absrel decl h H ->
+  forall decl entry les h H res, check C fn decl entry les p h ds = ([], res) -> absrel decl h H -> rinv (rank C) decl H ->
   post C decl entry les fn res H t x ds'.
 Proof. exact check_sound. Qed.
 Print Assumptions C04_check_sound.
